@@ -445,6 +445,10 @@ def larger_dies(chunk, replay=None):
                         taken.append(b)
                         regions.append([x + w / 2, y + h / 2, w, h, tag])
                         break
+            if rng.random() < 0.12:     # no ground region at all: tagged regions (and blockages) cover the whole die (added after seed C11-11)
+                regions = rng.choice([[[W / 2, H / 2, W, H, "BRAM"]], [[W / 4, H / 2, W / 2, H, "DSP"], [3 * W / 4, H / 2, W / 2, H, "BRAM"]],
+                                      [[W / 2, H / 4, W, H / 2, "DSP"], [W / 2, 3 * H / 4, W, H / 2, "#"]]])
+                taken = [(0, 0, W, H)]
             net = None
             if rng.random() < 0.4:
                 for _ in range(20):
